@@ -1,4 +1,6 @@
 -- Root of the library: importing every property module makes `lake build` re-check everything.
+import ExprModel.Props.C01
+import ExprModel.Props.C03
 import ExprModel.Props.C06
 import ExprModel.Props.C07
 import ExprModel.Props.C10
@@ -10,4 +12,3 @@ import ExprModel.Props.C15
 import ExprModel.Props.C16
 import ExprModel.Props.C17
 import ExprModel.Props.C18
-import ExprModel.Props.C01
